@@ -11,3 +11,6 @@ for c in axelar-gateway axelar-gas-service axelar-operators upgrader interchain-
   cargo kani -p $c -Z stubbing -Z unstable-options --no-memory-safety-checks --only-codegen >/dev/null 2>&1 || echo "setup: pre-build of $c failed (checks will report it)"
 done
 echo "setup done"
+# pre-build the real-host replay crate (scenarios, conformance, codec differential test)
+python3 replay/codec.py --cases 1 --seed 0 --quiet --out .work/codec_setup.json >/dev/null 2>&1 || true
+echo "replay crate pre-built"
